@@ -4,6 +4,16 @@ _BASE_NOTE = ("Trusted: CrossHair's symbolic models of str/int/list and z3 (for 
               "bounds per condition as written to evidence (pre: lines). Nothing is claimed outside the bounds.")
 
 CLAIMS = {
+    "C04": {
+        "technique": "bounded symbolic execution (CrossHair/z3) over template, data-world, failure, variable and history choice variables: real graphql_blocking vs a reference executor transcribed from spec section 6",
+        "text": "20 valid operation templates over a fixed 10-type schema x null placements x failing-resolver sets x variable assignments x request histories on the same Schema object: ordered data and the multiset of (error path, field location) equal the reference interpreter's.",
+        "note": _BASE_NOTE + " 'All schemas / all operations' is this generator family.",
+    },
+    "C05": {
+        "technique": "bounded symbolic execution (CrossHair/z3) over documents: valid templates, hand-written adversarial documents and every single-token edit of them; validation must not raise, a silent validator implies reference-equal execution",
+        "text": "60 documents and all their single-token edits over a 44-token alphabet (thorough: exhaustive; quick: a budget-limited prefix, reported as inconclusive): validate_ast returns a list and never raises; if the list is empty, graphql_blocking does not raise and equals the reference executor (stronger than shape).",
+        "note": _BASE_NOTE + " One fixed schema.",
+    },
     "C17": {
         "technique": "bounded symbolic execution (CrossHair/z3) over event-stream choice variables: the real subscribe / AsyncMap pipeline on a deterministic event loop against a per-event reference",
         "text": "Every source stream of 0..3 (thorough 4) events with 9 outcome combinations per event, loop ticks before events, sync/async subscription and field resolvers: one result per event in order, k-th data and errors are exactly event k's, the stream ends with the source (N+1 __anext__ calls). 4 refused request kinds raise the documented exception before the source is consumed.",
